@@ -36,6 +36,21 @@ let fid2 asis asis2 got =
 
 let path_s m = if Zar.geq m (Zar.shift_left Zar.one 128) then "path=words" else "path=nm"
 
+(* round 4: a THIRD as-is run for inverse and division of the multi-word ring - word lists + real kernels + the extended gcd
+   of the source (gcd_ext_word / gcd_ext_dword transcribed, C12's as-is Lehmer gcd_ext_in_place, logarithmic fuels);
+   asis=same needs all three.  path=...+gcd-<branch> says which gcd branch ran on (modulus, residue); a Panic / OutOfFuel of the gcd model
+   (a debug assertion of the gcd code - proved impossible, C13_gcd_ext_src) is reported as asis=diff *)
+let fid3 asis asis2 asis3 probe_ok got =
+  "asis=" ^ (if probe_ok && split_ws asis = norm_got got && split_ws asis2 = norm_got got && split_ws asis3 = norm_got got then "same" else "diff")
+
+let gcd_probe m x =
+  if Zar.lt m (Zar.shift_left Zar.one 128) then (true, "gcd-invm")
+  else match hrun_gcd_probe m x with
+    | Ok (((br, _), _), _) ->
+        (true, "gcd-" ^ (match Zar.to_int br with 0 -> "zero" | 1 -> "word" | 2 -> "dword" | _ -> "lehmer"))
+    | Panic _ -> (false, "gcd-model-panic")
+    | _ -> (false, "gcd-model-outoffuel")
+
 let kind_s m =
   match i_new Zar.zero m with
   | Ok r -> (match r_kind r with KSingle -> "single" | KDouble -> "double" | KLarge -> "large")
@@ -60,7 +75,14 @@ let judge op args got =
       verdict2 m ("ok " ^ hx (reduce_spec m x) ^ " " ^ hx m)
         (render (fun (v, md) -> hx v ^ " " ^ hx md) (run_reduce m x))
         (render (fun (v, md) -> hx v ^ " " ^ hx md) (hrun_reduce m x))
-  | "add" | "sub" | "mul" | "div" ->
+  | "div" ->
+      let m = a 2 and x = a 3 and y = a 4 in
+      let (pok, ps) = gcd_probe m y in
+      let r = render (fun v -> hx v ^ " " ^ hx m) in
+      expect ~extra:(fid3 (r (run_bin ODiv zero zero m m x y)) (r (hrun_bin ODiv m x y)) (r (hrun_div_src m x y)) pok got
+                     ^ " cls=" ^ kind_s m ^ " " ^ path_s m ^ "+" ^ ps)
+        (r (bin_spec ODiv m x y)) got
+  | "add" | "sub" | "mul" ->
       let m = a 2 and x = a 3 and y = a 4 in
       let o = binop_of op in
       verdict2 m (render (fun v -> hx v ^ " " ^ hx m) (bin_spec o m x y))
@@ -87,11 +109,14 @@ let judge op args got =
       (* the specification is the predicate inv_ok (the inverse is unique, so this also fixes the value) *)
       let asis = render (opt_s hx) (run_inv m x) in
       let asis2 = render (opt_s hx) (hrun_inv m x) in
+      let asis3 = render (opt_s hx) (hrun_inv_src m x) in
+      let (pok, ps) = gcd_probe m x in
       let ok = (match got with
         | [ "ok"; "none" ] -> inv_ok m x None
         | [ "ok"; "some"; v ] -> inv_ok m x (Some (z v))
         | _ -> false) in
-      if ok then pass ~extra:(fid2 asis asis2 got ^ " cls=" ^ kind_s m ^ " " ^ path_s m) () else fail ("ok " ^ opt_s hx (inv_spec m x))
+      if ok then pass ~extra:(fid3 asis asis2 asis3 pok got ^ " cls=" ^ kind_s m ^ " " ^ path_s m ^ "+" ^ ps) ()
+      else fail ("ok " ^ opt_s hx (inv_spec m x))
   | "eq" ->
       let m = a 1 and x = a 2 and y = a 3 in
       verdict2 m ("ok " ^ b2s (Zar.equal (reduce_spec m x) (reduce_spec m y))) (render b2s (run_eq zero zero m m x y))
@@ -132,11 +157,13 @@ let judge op args got =
       (* the raw form of transform as the second instance computes it (word lists / num-modular transcribed) *)
       let raw2_ok = (match op, got with
         | "r_transform", [ "ok"; _; _; raw ] -> (match hrun_transform m x with Ok t -> hx t = raw | _ -> false)
+        (* round 4: reduce_once / reduce_negate on word lists (C01's borrow kernels) in the multi-word ring *)
+        | ("r_add" | "r_sub" | "r_dbl" | "r_neg"), [ "ok"; _; _; raw ] -> (match hrun_rd_lin o m x y with Ok t -> hx t = raw | _ -> false)
         | _ -> true) in
       let f = if raw2_ok then fid asis got else "asis=diff" in
       (* demanded: the residue, and that the result is a valid reduced form; the raw form is observed only *)
       (match got with
-       | [ "ok"; r; "1"; _ ] when r = hx res -> pass ~extra:(f ^ " cls=" ^ kind_s m ^ (if op = "r_transform" then " " ^ path_s m else "")) ()
+       | [ "ok"; r; "1"; _ ] when r = hx res -> pass ~extra:(f ^ " cls=" ^ kind_s m ^ (match op with "r_transform" | "r_add" | "r_sub" | "r_dbl" | "r_neg" -> " " ^ path_s m | _ -> "")) ()
        | _ -> fail ("ok " ^ hx res ^ " 1 <raw>"))
   | "r_inv" ->
       let m = a 0 and x = a 1 in
